@@ -49,7 +49,7 @@ Definition rnd_tab (tab : list (Q * num)) (q : Q) : num :=
   end.
 
 Definition outcome_tag (o : outcome) : Z :=
-  match o with Accepted => 0 | RejNoSchema => 1 | RejSchema => 2 | RejRecords => 3 | RejConvert => 4 | RejCommit => 5 end.
+  match o with Accepted => 0 | RejNoSchema => 1 | RejSchema => 2 | RejRecords => 3 | RejConvert => 4 | RejCommit => 5 | RejFile => 6 end.
 
 Definition aschema_tags (a : aschema) : list (Z * Z * bool) :=
   map (fun x => (fst (fst x), atype_tag (snd (fst x)), snd x)) a.
@@ -116,5 +116,54 @@ Fixpoint tx_trace (conv : atype -> pyval -> option pyval) (w : world) (ts : list
       let w' := end_tx w1 q (t_end t) in
       (map fst tr, Z.of_nat (length (w_snaps w')), Z.of_nat (length (w_store w')), Z.of_nat (length (current w')),
        all2 file_matches (current w') real, scan_ok (current w')) :: tx_trace conv w' ts'
+    end
+  end.
+
+(* ---- handle provenance (Model/SchemaOpen.v) ---- *)
+Require Import DS.Model.OpenBase DS.Gen.GenOpen DS.Model.SchemaOpen.
+
+(* what the harness read off a real handle: DataFileManager._arrow_schema_cache as [(schema_id, footer tags)] *)
+Definition real_cache := list (Z * list (Z * Z * bool)).
+
+Definition tags_eqb (x y : list (Z * Z * bool)) : bool :=
+  list_eqb (fun a b => match a, b with (n1, t1, b1), (n2, t2, b2) => (n1 =? n2) && (t1 =? t2) && Bool.eqb b1 b2 end) x y.
+
+(* the model's cache and the real dictionary hold the same entries (keys are unique on both sides) *)
+Definition cache_matches (c : cache) (r : real_cache) : bool :=
+  Nat.eqb (length c) (length r)
+  && forallb (fun kr => match lookup (fst kr) c with Some a => tags_eqb (aschema_tags a) (snd kr) | None => false end) r.
+
+Definition apply_opens (w : world) (os : list (Z * opener)) : world :=
+  fold_left (fun w ho => open_handle w (fst ho) (snd ho)) os w.
+
+Definition caches_match (w : world) (rcs : list (Z * real_cache)) : bool :=
+  forallb (fun hr => cache_matches (cache_of w (fst hr)) (snd hr)) rcs.
+
+(* per step: the openings performed right before it, the append, the observed files and the observed caches
+   of the handles involved; step_obs + "every observed cache equals the model's" *)
+Definition hstep_obs := (Z * Z * Z * Z * bool * bool * bool)%type.
+
+Fixpoint htrace (conv : atype -> pyval -> option pyval) (w : world)
+    (es : list (list (Z * opener) * event * list real_file * list (Z * real_cache))) : list hstep_obs :=
+  match es with
+  | [] => []
+  | (os, e, real, rcs) :: es' =>
+    let (w', o) := step conv (apply_opens w os) e in
+    (outcome_tag o, Z.of_nat (length (w_snaps w')), Z.of_nat (length (w_store w')), Z.of_nat (length (current w')),
+     all2 file_matches (current w') real, scan_ok (current w'), caches_match w' rcs) :: htrace conv w' es'
+  end.
+
+Definition htx_obs := (list Z * Z * Z * Z * bool * bool * bool)%type.
+
+Fixpoint thtrace (conv : atype -> pyval -> option pyval) (w : world)
+    (ts : list (list (Z * opener) * txn * list real_file * list (Z * real_cache))) : list htx_obs :=
+  match ts with
+  | [] => []
+  | (os, t, real, rcs) :: ts' =>
+    match run_calls conv (apply_opens w os) tx_empty (t_handle t) (t_calls t) with
+    | (w1, q, tr) =>
+      let w' := end_tx w1 q (t_end t) in
+      (map fst tr, Z.of_nat (length (w_snaps w')), Z.of_nat (length (w_store w')), Z.of_nat (length (current w')),
+       all2 file_matches (current w') real, scan_ok (current w'), caches_match w' rcs) :: thtrace conv w' ts'
     end
   end.
